@@ -379,9 +379,16 @@ func (dm *DMap) put(e *env) error {
 	}
 
 	// Redirect to the partition owner.
-	cmd, err := dm.writePutCommand(e)
-	if err != nil {
-		return err
+	var cmd *redis.StatusCmd
+	var err error
+	if e.putConfig.OnlyUpdateTTL {
+		// It's an Expire call, the value has to be kept.
+		cmd = protocol.NewPExpire(e.dmap, e.key, e.timeout).Command(dm.s.ctx)
+	} else {
+		cmd, err = dm.writePutCommand(e)
+		if err != nil {
+			return err
+		}
 	}
 	rc := dm.s.client.Get(member.String())
 	err = rc.Process(e.ctx, cmd)
